@@ -1183,3 +1183,159 @@ class C11(FileCheck):
 
 E.register(C10())
 E.register(C11())
+
+
+# ---------------------------------------------------------------------------------------
+# exitsim checks
+from . import exitsim as X
+
+REAL_EXIT = ("real: a fresh CPython interpreter per run with its real atexit / sys.exit / sys.excepthook "
+             "machinery, pysnark/atexitmaybe.py, pysnark/runtime.py and the selected backend writing real files "
+             "into an empty scratch directory; stubs: `flatbuffers` (zkinterface rows), fake qaptools executables "
+             "(qaptools rows), fake `libsnark` module where a configuration says so")
+
+EXIT_ARGS = ["", "None", "0", "False", "3", "1", "True", "'msg'", "0.0", "-1"]
+EXIT_MODES = [("end", None), ("sys_exit", EXIT_ARGS), ("raise_SystemExit", EXIT_ARGS),
+              ("builtin_exit", EXIT_ARGS), ("builtin_quit", ["", "0", "2"]), ("uncaught", None),
+              ("uncaught_assert", None), ("uncaught_in_guard", None), ("uncaught_in_dead_guard_user", None),
+              ("uncaught_in_snark", None), ("uncaught_in_finally", None), ("keyboard_interrupt", None),
+              ("caught_exit_then_end", ["0", "3", "'msg'"]), ("caught_error_then_end", None),
+              ("os__exit", ["0", "1"]), ("exit_in_guard", ["0", "3"])]
+
+ARTEFACTS = {
+    "snarkjs": ("witness.wtns", "circuit.r1cs"),
+    "zkinterface": ("computation.zkif", "circuit.zkif"),
+    "zkifbellman": ("computation.zkif", "circuit.zkif"),
+    "zkifbulletproofs": ("computation.zkif", "circuit.zkif"),
+    "qaptools": ("pysnark_schedule", "pysnark_proof"),
+}
+TRACING_FILES = ("pysnark_eqs", "pysnark_wires", "pysnark_values")
+
+
+class C18(TraceCheck):
+    name = "C18"
+    prop = "C18"
+    props = ()
+    budget = {"quick": 640, "thorough": 25000}
+    components = REAL_EXIT
+    run_cap_s = 300
+    rule = ("one fresh interpreter per (plan, statement position k, termination mode x argument, backend, "
+            "autoprove on/off, stale artefacts yes/no): fall off the end, sys.exit / raise SystemExit / "
+            "exit() / quit() with nothing, None, 0, False, non-zero, True, str, 0.0, uncaught exception from "
+            "user code, from a failing pysnark assertion, inside a guarded region, inside a @snark function, "
+            "in a finally, KeyboardInterrupt, sys.exit caught by the script, os._exit. expected = f(real "
+            "exit status): status 0 + autoprove => prove() ran exactly once over the complete trace and "
+            "the artefacts decode to the trace dumped at the termination point; status != 0 => prove() did "
+            "not run and the directory (incl. stale artefacts) is byte-identical; autoprove off => nothing "
+            "produced and no traceback from the exit hook. non-trivial = distinct (mode, arg, position "
+            "class, backend, autoprove, stale) tuples judged")
+
+    def gen(self, rng, i, tier):
+        backend = rng.choice(["snarkjs", "snarkjs", "zkinterface", "zkifbellman", "zkifbulletproofs", "qaptools"])
+        cfg = {"backend": backend, "bitlength": rng.choice([4, 8]), "resolution": 2, "value_bias": "tiny",
+               "max_nesting": 1, "p_try": 1.0, "p_bool_cond": 0.5, "fxp": rng.random() < 0.3}
+        plan = P.generate(rng, cfg, dict(FULL_MIX, set_ie=0, array=0, aset=0, aget=0, val=3),
+                          n_stmts=rng.randrange(0, 6))
+        mode, args = EXIT_MODES[i % len(EXIT_MODES)] if rng.random() < 0.7 else rng.choice(EXIT_MODES)
+        arg = rng.choice(args) if args else ""
+        k = rng.randrange(0, len(plan["body"]) + 1)
+        if mode != "end":
+            plan["body"].insert(k, {"s": "terminate", "mode": mode, "arg": arg})
+        return {"plan": plan, "mode": mode, "arg": arg, "k": k, "autoprove": rng.random() < 0.8,
+                "stale": rng.random() < 0.3 and backend != "qaptools"}
+
+    def run(self, case):
+        plan = case["plan"]
+        backend = plan["cfg"]["backend"]
+        cfg = {"inputs": [i["v"] for i in plan["inputs"]], "autoprove": case["autoprove"]}
+        pre = {}
+        if case["stale"]:
+            pre = {fn: b"STALE ARTEFACT OF AN EARLIER RUN " + fn.encode() for fn in ARTEFACTS[backend]}
+        src = "_rt.bitlength = %d\n_fp = __import__('pysnark.fixedpoint').fixedpoint\n_fp.resolution = %d\n" % (
+            plan["cfg"]["bitlength"], plan["cfg"]["resolution"]) + X.body_source(plan) + "\n__term__('end-of-script')\n"
+        r = X.run_child(src, cfg, X.child_env(backend), pre)
+        if r["rc"] == "timeout":
+            raise W.HarnessError("child interpreter timed out")
+        ev = r["events"]
+        if not ev or ev[0].get("ev") != "imported":
+            raise W.HarnessError("child did not import pysnark: rc=%r stderr=%s" % (r["rc"], r["stderr"][-500:]))
+        proves = [e for e in ev if e["ev"] == "prove"]
+        terms = [e for e in ev if e["ev"] == "term"]
+        mode, arg = case["mode"], case["arg"]
+        site = {"mode": mode, "arg": arg, "autoprove": case["autoprove"]}
+        viol = []
+
+        def add(oracle, detail, **extra):
+            s = dict(site)
+            s.update(extra)
+            viol.append({"property": "C18", "oracle": oracle, "site": s, "detail": detail})
+        art = ARTEFACTS[backend]
+        changed = sorted(fn for fn in set(r["before"]) | set(r["after"])
+                         if r["before"].get(fn) != r["after"].get(fn) and fn not in TRACING_FILES)
+        art_changed = [fn for fn in changed if fn in art or fn.startswith("pysnark_")]
+        rc = r["rc"]
+        hook_tb = ("Traceback" in r["stderr"] and ("atexit" in r["stderr"] or "process_snark" in r["stderr"]))
+        if mode == "os__exit":
+            if proves or art_changed:
+                add("artefact_on_failure", "os._exit: prove ran %d times, files changed %r" % (len(proves), changed))
+        elif not case["autoprove"]:
+            if proves or art_changed:
+                add("artefact_without_autoprove", "autoprove off: prove ran %d times, files changed %r" % (
+                    len(proves), changed))
+            if hook_tb:
+                add("exit_hook_failed", "autoprove off: the exit hook printed a traceback: %s" % (
+                    r["stderr"].strip().splitlines()[-1][:150]))
+        elif rc == 0:
+            if len(proves) == 0:
+                add("no_artefact_on_success", "exit status 0 but the proving step did not run (stderr: %s)" % (
+                    r["stderr"].strip().splitlines()[-1][:120] if r["stderr"].strip() else ""))
+            elif len(proves) > 1:
+                add("prove_count", "proving step ran %d times" % len(proves))
+            else:
+                missing = [fn for fn in art if fn not in r["after"]]
+                if missing:
+                    add("no_artefact_on_success", "proving step ran but %r missing" % missing)
+                tr = proves[0]["trace"]
+                tt = terms[-1]["trace"] if terms else None
+                if tt is not None and tr is not None and not all(
+                        tr[k][:len(tt[k])] == tt[k] for k in ("pub", "priv", "cons")):
+                    # (the terminator statement itself may allocate after the dump, hence prefix)
+                    add("artefact_ne_trace", "trace at proving time does not extend the trace dumped at the "
+                        "termination point")
+                if tr is not None and not missing and backend in W.DICT_BACKENDS:
+                    rec = X.trace_to_rec(tr, backend)
+                    probs = (check_snarkjs_files(r["after"], rec) if backend == "snarkjs"
+                             else check_zkif_files(r["after"], rec, rec.p))
+                    for oracle, where, detail in probs:
+                        add("artefact_ne_trace", "%s %s: %s" % (oracle, where, detail), backend=backend)
+                        break
+                if hook_tb:
+                    add("exit_hook_failed", "traceback in the exit hook: %s" % r["stderr"].strip().splitlines()[-1][:150])
+        else:
+            if proves or art_changed:
+                add("artefact_on_failure", "exit status %r but prove ran %d times, files changed %r" % (
+                    rc, len(proves), changed))
+        posclass = "first" if case["k"] == 0 else ("last" if case["k"] >= len(plan["body"]) - 1 else "middle")
+        nt = E.sha((mode, arg, posclass, backend, case["autoprove"], case["stale"]))
+        faults = {"term:" + mode: 1}
+        if case["stale"]:
+            faults["stale"] = 1
+        probes = {"status_%s" % ("0" if rc == 0 else "nonzero"): 1, "prove_ran": len(proves)}
+        return {"violations": viol,
+                "digest": E.sha((rc, len(proves), X.files_digest(r["after"]) if backend != "qaptools" else
+                                 sorted(r["after"]), [v["oracle"] for v in viol])),
+                "nontrivial": nt, "events": len(ev) + len(r["after"]) + len(r["tools"]), "faults": faults,
+                "probes": probes, "sigs": [nt], "outcome": [rc, len(proves)]}
+
+    def shrink_candidates(self, case):
+        for c in P.shrink_plan_candidates(case):
+            # keep exactly the terminator
+            if case["mode"] == "end" or any(s.get("s") == "terminate" for s in c["plan"]["body"]):
+                yield c
+        if case.get("stale"):
+            c = copy.deepcopy(case)
+            c["stale"] = False
+            yield c
+
+
+E.register(C18())
